@@ -194,9 +194,17 @@ func H14_readwait() {
 type vrtChunkReader struct {
 	data []byte
 	pos  int
+	bf   *buffer
 }
 
 func (r *vrtChunkReader) Read(b []byte) (int, error) {
+	if r.bf != nil {
+		// a reader may fill all of b: b must lie inside the reserved block, which
+		// must be free (not cover bytes the consumer has not committed)
+		free := r.bf.size - (r.bf.pseq.get() - r.bf.cseq.get())
+		vrtAssert("C14.readfrom_slice_within_block", vrtAnd(len(b) >= 1, len(b) <= defaultReadBlockSize))
+		vrtAssert("C14.readfrom_slice_within_free", int64(len(b)) <= free)
+	}
 	if r.pos >= len(r.data) {
 		return 0, io.EOF
 	}
@@ -210,7 +218,7 @@ func H14_readfrom() {
 	bf := st.bf
 	data := vrtBytesL("in", vrtBound("N14chunk", 4))
 	orig := append([]byte(nil), data...)
-	total, err := bf.ReadFrom(&vrtChunkReader{data: data})
+	total, err := bf.ReadFrom(&vrtChunkReader{data: data, bf: bf})
 	vrtAssert("C14.readfrom_result", vrtAnd(total == int64(len(orig)), err == io.EOF))
 	vrtAssert("C14.readfrom_cursor", vrtAnd(bf.pseq.get() == st.p+int64(len(orig)), bf.cseq.get() == st.c))
 	for i := range orig {
@@ -251,4 +259,80 @@ func H14_writeto() {
 func H14_len() {
 	st := vrtRing(16384)
 	vrtAssert("C14.len", int64(st.bf.Len()) == st.avail)
+}
+
+// H14b_blocked_producer: a producer that needs k bytes of room on a full ring
+// stays blocked while the consumer has freed fewer than k bytes (every
+// consumer step wakes it), and never overwrites bytes the consumer has not
+// committed; the bytes then arrive in order.
+func H14b_blocked_producer() {
+	bf, err := newBuffer(1)
+	if err != nil {
+		panic(err)
+	}
+	bf.buf = vrtArrayBytes(int(bf.size))
+	var c int64
+	switch vrtChoice("pos", 3) {
+	case 0:
+		c = 0
+	case 1:
+		c = bf.size - 1
+	case 2:
+		c = 3*bf.size + 5
+	}
+	free := int64(vrtChoice("free", 2)) // 0 or 1 byte free
+	p := c + bf.size - free
+	bf.cseq.set(c)
+	bf.pseq.set(p)
+	bf.pseq.gate = c
+	var s [4]byte
+	for i := range s {
+		s[i] = vrtByte("s")
+		bf.buf[(c+int64(i))&bf.mask] = s[i]
+	}
+	need := 2 + vrtChoice("need", 2) // 2 or 3 bytes
+	x := vrtBytesN("x", need)
+	xs := append([]byte(nil), x...)
+	var wn int
+	var werr error
+	useWait := vrtBool("writewait")
+	vrtGo(func() {
+		if useWait {
+			var b []byte
+			var wrap bool
+			b, wrap, werr = bf.WriteWait(need)
+			if werr == nil && wrap {
+				wn, werr = bf.Write(xs) // what writeMessage does with a wrapped reservation
+			} else if werr == nil {
+				copy(b, xs)
+				wn, werr = bf.WriteCommit(need)
+			}
+		} else {
+			wn, werr = bf.Write(xs)
+		}
+	})
+	vrtQuiesce()
+	one := make([]byte, 1)
+	steps := need - int(free)
+	for k := 0; k < steps; k++ {
+		vrtAssert("C14.producer_waits_for_room", bf.pseq.get() == p)
+		for i := k; i < len(s); i++ {
+			vrtAssert("C14.unread_bytes_kept", bf.buf[(c+int64(i))&bf.mask] == s[i])
+		}
+		n, rerr := bf.Read(one)
+		vrtAssert("C14.read_one", n == 1 && rerr == nil)
+		vrtAssert("C14.read_stream_byte", one[0] == s[k])
+		vrtQuiesce()
+	}
+	vrtJoin()
+	vrtAssert("C14.producer_done", werr == nil && wn == need)
+	vrtAssert("C14.producer_cursor", bf.pseq.get() == p+int64(need))
+	for i := 0; i < need; i++ {
+		vrtAssert("C14.written_in_place", bf.buf[(p+int64(i))&bf.mask] == xs[i])
+	}
+	for i := steps; i < len(s); i++ {
+		vrtAssert("C14.unread_bytes_kept", bf.buf[(c+int64(i))&bf.mask] == s[i])
+	}
+	vrtObserve("blocked", wn, steps)
+	vrtReach("C14.blocked_producer")
 }
